@@ -385,6 +385,37 @@ class C20(Check):
                         res.violation(f"beyond-budget-masked:{op}", f"{n} transient failures exceed the budget but the call returned", wit)
                     elif fl.attempts != budget + 1:
                         res.violation(f"attempt-count-beyond-budget:{op}", f"{fl.attempts} attempts, budget {budget}+1", wit)
+        if op == "list_files":
+            # a listing that spans several pages: a transient failure on page 2, 3.. is retried from the start;
+            # the result must be exactly the fault-free listing (no duplicates, nothing missing)
+            def fresh_paged() -> Tuple[Any, Flaky, FakeS3Store]:
+                store = FakeS3Store(page_size=2)
+                for i in range(7):
+                    store.put_object(Bucket="bkt", Key=f"p/d/k{i}", Body=b"x")
+                fl2 = Flaky(FakeS3Client(store))
+                b = S3StorageBackend.__new__(S3StorageBackend)
+                b.bucket, b.prefix, b.endpoint_url, b.access_key, b.secret_key = "bkt", "p", None, None, None
+                b.region, b.use_conditional_writes = "us-east-1", True
+                b.s3 = fl2
+                return b, fl2, store
+
+            b0, f0, _ = fresh_paged()
+            f0.arm(meth, [])
+            want = sorted(b0.list_files("d"))
+            for page in range(0, 4):
+                for nfail in (1, 2):
+                    for kind, mk in TRANSIENT.items():
+                        b1, f1, _ = fresh_paged()
+                        f1.arm(meth, [None] * page + [mk] * nfail)
+                        got = outcome(lambda: sorted(b1.list_files("d")))
+                        res.count("retry_cases")
+                        res.count("paged_listing_faults")
+                        res.evals += 1
+                        res.key(["paged", page, nfail, kind])
+                        if got != ("ok", want):
+                            res.violation("paged-listing-changed-by-retry",
+                                          f"transient {kind} x{nfail} on page {page + 1} of a 4-page listing: result {str(got)[:160]} != {want}",
+                                          {"page": page + 1, "failures": nfail, "fault": kind, "result": str(got)[:300]})
         for kind, mk in PERMANENT.items():
             for pre in range(0, budget + 1):
                 s3, fl, _st = fresh()
